@@ -77,13 +77,10 @@ def align_vectors(a, b, return_angle=False):
     matrix[:3, :3] = bu.dot(au.T)
 
     if return_angle:
-        # projection of a onto b
-        # first row of SVD result is normalized source vector
-        dot = np.dot(au[0], bu[0])
+        # projection of unit vector a onto unit vector b
+        dot = np.dot(a / np.linalg.norm(a), b / np.linalg.norm(b))
         # clip to avoid floating point error
         angle = np.arccos(np.clip(dot, -1.0, 1.0))
-        if dot < -1e-5:
-            angle += np.pi
         return matrix, angle
 
     return matrix
